@@ -27,21 +27,29 @@ pub fn model_path(name: &str) -> PathBuf {
     PathBuf::from("/repo/rust/routee-compass-powertrain/src/routee/test").join(name)
 }
 
-fn underlying(name: &str, eru: EnergyRateUnit) -> Result<PredictionModelRecord, String> {
-    load_prediction_model(name.to_string(), &model_path(name), ModelType::Smartcore, SpeedUnit::MilesPerHour, GradeUnit::Decimal, eru, Some(routee_compass_core::model::unit::EnergyRate::new(0.1)), None, None).map_err(|e| e.to_string())
+fn underlying(name: &str, eru: EnergyRateUnit, msu: SpeedUnit, mgu: GradeUnit) -> Result<PredictionModelRecord, String> {
+    load_prediction_model(name.to_string(), &model_path(name), ModelType::Smartcore, msu, mgu, eru, Some(routee_compass_core::model::unit::EnergyRate::new(0.1)), None, None).map_err(|e| e.to_string())
 }
 
 fn grid_case(rng: &mut Rng, rep: &mut Report, npoints: usize) {
     let mi = rng.below(4);
     let (name, eru) = MODELS[mi];
+    // how the model file is declared (the units its inputs and its rate are read in) is part of the configuration: the
+    // interpolated model and the underlying model are declared alike and have to agree under every declaration
+    let msu = *rng.pick(&U::SPEED_UNITS);
+    let mgu = *rng.pick(&U::GRADE_UNITS);
+    let eru = match eru {
+        EnergyRateUnit::KilowattHoursPerMile => *rng.pick(&[EnergyRateUnit::KilowattHoursPerMile, EnergyRateUnit::KilowattHoursPerKilometer, EnergyRateUnit::KilowattHoursPerMeter]),
+        _ => *rng.pick(&[EnergyRateUnit::GallonsGasolinePerMile, EnergyRateUnit::GallonsDieselPerMile]),
+    };
     let s_lo = *rng.pick(&[0.0, 5.0, 10.0]);
     let s_hi = *rng.pick(&[60.0, 80.0, 100.0]);
     let g_lo = *rng.pick(&[-0.2, -0.1, -0.05]);
     let g_hi = *rng.pick(&[0.05, 0.1, 0.2]);
     let s_bins = *rng.pick(&[2usize, 3, 5, 11, 21, 41]);
     let g_bins = *rng.pick(&[2usize, 3, 5, 9, 21]);
-    let settings = json!({"model": name, "speed_bounds": [s_lo, s_hi], "speed_bins": s_bins, "grade_bounds": [g_lo, g_hi], "grade_bins": g_bins});
-    let under = match underlying(name, eru) {
+    let settings = json!({"model": name, "declared_units": [msu.to_string(), mgu.to_string(), eru.to_string()], "speed_bounds": [s_lo, s_hi], "speed_bins": s_bins, "grade_bounds": [g_lo, g_hi], "grade_bins": g_bins});
+    let under = match underlying(name, eru, msu, mgu) {
         Ok(u) => u,
         Err(e) => {
             rep.inconclusive(format!("cannot load bundled model {name}: {e}"));
@@ -57,7 +65,7 @@ fn grid_case(rng: &mut Rng, rep: &mut Report, npoints: usize) {
         grade_upper_bound: Grade::new(g_hi),
         grade_bins: g_bins,
     };
-    let interp = match catch(|| load_prediction_model(name.to_string(), &model_path(name), mt, SpeedUnit::MilesPerHour, GradeUnit::Decimal, eru, Some(routee_compass_core::model::unit::EnergyRate::new(0.1)), None, None)) {
+    let interp = match catch(|| load_prediction_model(name.to_string(), &model_path(name), mt, msu, mgu, eru, Some(routee_compass_core::model::unit::EnergyRate::new(0.1)), None, None)) {
         Ok(Ok(m)) => m,
         Ok(Err(e)) => {
             rep.violate("C14|InterpolationSpeedGradeModel::new|error", format!("well-formed grid refused: {e}"), || settings.clone());
@@ -74,7 +82,7 @@ fn grid_case(rng: &mut Rng, rep: &mut Report, npoints: usize) {
     let mut vals = vec![vec![0.0; g_bins]; s_bins];
     for (i, x) in xs.iter().enumerate() {
         for (j, y) in ys.iter().enumerate() {
-            match under.prediction_model.predict((Speed::new(*x), SpeedUnit::MilesPerHour), (Grade::new(*y), GradeUnit::Decimal)) {
+            match under.prediction_model.predict((Speed::new(*x), msu), (Grade::new(*y), mgu)) {
                 Ok((r, _)) => vals[i][j] = r.as_f64(),
                 Err(e) => {
                     rep.inconclusive(format!("underlying model failed at a grid point: {e}"));
@@ -121,10 +129,10 @@ fn grid_case(rng: &mut Rng, rep: &mut Report, npoints: usize) {
             _ => (rng.frange(s_lo - 5.0, s_hi + 30.0), if rng.chance(0.5) { g_hi + rng.frange(0.01, 0.5) } else { g_lo - rng.frange(0.01, 0.5) }, "outside-grade"),
         };
         // express in the query units; what the model will see is the repo's own conversion back
-        let qs = SpeedUnit::MilesPerHour.convert(&Speed::new(mx), &su).as_f64();
-        let qg = GradeUnit::Decimal.convert(&Grade::new(my), &gu).as_f64();
-        let seen_x = su.convert(&Speed::new(qs), &SpeedUnit::MilesPerHour).as_f64();
-        let seen_y = gu.convert(&Grade::new(qg), &GradeUnit::Decimal).as_f64();
+        let qs = msu.convert(&Speed::new(mx), &su).as_f64();
+        let qg = mgu.convert(&Grade::new(my), &gu).as_f64();
+        let seen_x = su.convert(&Speed::new(qs), &msu).as_f64();
+        let seen_y = gu.convert(&Grade::new(qg), &mgu).as_f64();
         let replay = || {
             let mut r = settings.clone();
             r["query"] = json!({"speed": qs, "speed_unit": su.to_string(), "grade": qg, "grade_unit": gu.to_string(), "kind": label});
@@ -178,7 +186,7 @@ fn grid_case(rng: &mut Rng, rep: &mut Report, npoints: usize) {
         }
         // I4 outside = clamped (in model units so that the comparison is exact)
         if label.starts_with("outside") {
-            match predict(cx, SpeedUnit::MilesPerHour, cy, GradeUnit::Decimal) {
+            match predict(cx, msu, cy, mgu) {
                 Ok(v) => {
                     if !rel_close(v, got, 1e-9, 1e-12) {
                         rep.violate(&format!("C14|interpolated|outside-not-clamped|{label}"), format!("I4 rate {got} outside the grid but the nearest boundary point gives {v}"), replay);
@@ -197,7 +205,7 @@ fn grid_case(rng: &mut Rng, rep: &mut Report, npoints: usize) {
             let y = rng.frange(g_lo, g_hi);
             let w = xs[i + 1] - xs[i];
             let d = w * 1e-6;
-            if let (Ok(a), Ok(b)) = (predict(xs[i] - d, SpeedUnit::MilesPerHour, y, GradeUnit::Decimal), predict(xs[i] + d, SpeedUnit::MilesPerHour, y, GradeUnit::Decimal)) {
+            if let (Ok(a), Ok(b)) = (predict(xs[i] - d, msu, y, mgu), predict(xs[i] + d, msu, y, mgu)) {
                 let (ya, _) = cell(&ys, y);
                 let mut spread: f64 = 0.0;
                 for ii in i - 1..=i + 1 {
